@@ -85,11 +85,11 @@ Proof.
 Qed.
 Print Assumptions C01_nested_tokenize_progress.
 
-(* ---- the block parser never raises (options.html off) -------------------------------------- *)
+(* ---- the block parser never raises ---------------------------------------------------------- *)
 From MD Require Import Model.Ruler Lemmas.NoRaise Gen.Rules Lemmas.PipelineSafe.
 
-(* For EVERY source, env and token list, and every configuration with options.html off that has the
-   paragraph rule and whose named terminator chains hold only silent-capable rules other than
+(* For EVERY source, env and token list, and every configuration (options.html on or off, any
+   maxNesting, any enabled subset) that has the paragraph rule and whose named terminator chains hold only silent-capable rules other than
    `reference` (true of every Ruler-compiled configuration of the generated rule table):
    ParserBlock.parse does not raise - no IndexError from a line-table read, none from an
    unguarded src[...] read, no exception of any other kind the model can produce.  (It may still
@@ -97,11 +97,13 @@ From MD Require Import Model.Ruler Lemmas.NoRaise Gen.Rules Lemmas.PipelineSafe.
    an exception.)  The proof carries a table invariant through all 11 rules: table lengths, marks
    inside the source, a line feed at every end mark but the last line's, a non-blank at the logical
    start of a non-empty line; block quote and list rewrites keep it and their restores give back
-   the ORIGINAL tables literally.  With options.html on the html_block rule's last body line
-   needs the column arithmetic of nested containers, which is not proved. *)
+   the ORIGINAL tables literally.  A second invariant (CI) bounds every sCount entry by the columns
+   getLines itself counts over the line's leading blanks (gcols), through block quote and list
+   rewrites; it is what makes html_block's getLines(..., blkIndent, True) safe on a blank last line
+   inside containers. *)
 Theorem C01_block_parse_never_raises :
   forall cfg rf cf src env toks,
-    c_html cfg = false -> term_names_ok cfg -> mem_str nm_paragraph (c_rules cfg) = true ->
+    term_names_ok cfg -> mem_str nm_paragraph (c_rules cfg) = true ->
     forall e, block_parse cfg rf cf src env toks <> Raise e.
 Proof. exact block_parse_no_raise. Qed.
 Print Assumptions C01_block_parse_never_raises.
@@ -109,7 +111,7 @@ Print Assumptions C01_block_parse_never_raises.
 (* every rule, the nested tokenize at any depth and the rule loop return with the five line tables,
    the source and lineMax exactly as they were *)
 Theorem C01_nested_tokenize_restores_tables :
-  forall cfg rf cf N, c_html cfg = false -> term_names_ok cfg -> mem_str nm_paragraph (c_rules cfg) = true ->
+  forall cfg rf cf N, term_names_ok cfg -> mem_str nm_paragraph (c_rules cfg) = true ->
   forall d, rec_n N (tokenize cfg rf cf d).
 Proof. exact tokenize_rec_n. Qed.
 Print Assumptions C01_nested_tokenize_restores_tables.
@@ -118,6 +120,11 @@ Theorem C01_fresh_tables_invariant :
   forall src env toks, RI (b_lineMax (state_init src env toks)) (state_init src env toks).
 Proof. exact state_init_RI. Qed.
 Print Assumptions C01_fresh_tables_invariant.
+
+Theorem C01_fresh_tables_columns :
+  forall src env toks, CI (state_init src env toks).
+Proof. exact state_init_CI. Qed.
+Print Assumptions C01_fresh_tables_columns.
 
 Theorem C01_ruler_cfg_term_names_ok :
   forall (rs : list (@rule str)) code mn html defs,
